@@ -2334,6 +2334,51 @@ fn mpmc_refill_race() {
     assert_eq!(rest, want, "C09: values must be received in the order in which their sends took effect");
 }
 
+/// capacity `cap` with `cap - 1` values buffered: two threads call try_send at the same time and
+/// nobody receives. Exactly one of them is accepted, the other one gets its own value handed back
+/// as `Full`; afterwards the buffered values come out in order and nothing else is stored.
+fn mpmc_try_send_race_v(cap: usize) {
+    use futures_intrusive::channel::{TryReceiveError, TrySendError};
+    let (tx, rx) = sh::generic_channel::<LoomRaw, u32, FixedHeapBuf<u32>>(cap);
+    let _ = rx.try_receive();
+    for i in 1..cap as u32 {
+        tx.try_send(100 + i).unwrap();
+    }
+    let hs: Vec<_> = (1..=2u32)
+        .map(|i| {
+            let tx = tx.clone();
+            spawn(move || match tx.try_send(i) {
+                Ok(()) => None,
+                Err(TrySendError::Full(v)) => Some(v),
+                Err(TrySendError::Closed(v)) => panic!("C11: try_send({}) reported Closed on an open channel", v),
+            })
+        })
+        .collect();
+    let back: Vec<Option<u32>> = hs.into_iter().map(|h| h.join().unwrap()).collect();
+    let refused: Vec<u32> = back.iter().flatten().copied().collect();
+    assert_eq!(refused.len(), 1, "C09: {} free slot, two concurrent try_send calls, nobody receives: exactly one must be accepted (refused: {:?})", 1, refused);
+    let r = refused[0];
+    assert!(back[(r - 1) as usize] == Some(r), "C08: a refused try_send must hand back its own value, got {:?}", back);
+    let accepted = 3 - r;
+    let mut got = vec![];
+    for _ in 0..cap + 2 {
+        match rx.try_receive() {
+            Ok(v) => got.push(v),
+            Err(TryReceiveError::Empty) => break,
+            Err(TryReceiveError::Closed) => panic!("C11: try_receive reported Closed on an open channel"),
+        }
+    }
+    let mut want: Vec<u32> = (1..cap as u32).map(|i| 100 + i).collect();
+    want.push(accepted);
+    assert_eq!(got, want, "C08/C09: the channel must hold exactly the earlier values and the accepted one, in order");
+}
+fn mpmc_try_send_race_cap1() {
+    mpmc_try_send_race_v(1)
+}
+fn mpmc_try_send_race_cap2() {
+    mpmc_try_send_race_v(2)
+}
+
 /// two producers, one consumer; per-producer order must survive
 fn mpmc_2p1c(cap: usize, second: bool) {
     let (tx, rx) = sh::generic_channel::<LoomRaw, u32, FixedHeapBuf<u32>>(cap);
@@ -2958,6 +3003,8 @@ const SCENARIOS: &[(&str, &str, Scenario)] = &[
     ("event_setters_race", "wk:C14", event_setters_race),
     ("mpmc_last_receiver_clears", "hook:C11", mpmc_last_receiver_clears),
     ("mpmc_refill_race", "wk:C09", mpmc_refill_race),
+    ("mpmc_try_send_race_cap1", "C08,C09", mpmc_try_send_race_cap1),
+    ("mpmc_try_send_race_cap2", "C08,C09", mpmc_try_send_race_cap2),
     ("mpmc_cancel_vs_receive_cap0", "wk:C01,C08", mpmc_cancel_vs_receive_cap0),
     ("mpmc_cancel_vs_receive_cap1", "wk:C01,C08", mpmc_cancel_vs_receive_cap1),
     ("mpmc_notified_drop_contended", "wk:C10", mpmc_notified_drop_contended),
